@@ -1,7 +1,7 @@
 """C02 — bin archive serialization is canonical, deterministic and byte-stable."""
 from mir import fmt, walk, strip_refs, callee_names, norm
-from flow import enum_paths, PathLimit, guards, fmt_cond, control_deps
-from binser import (for_loops, sort_calls, hash_order_source, root_of, rpo_index, mutations_of, affine, fmt_affine,
+from flow import enum_paths, PathLimit, guards, dom_guards, fmt_cond, control_deps
+from binser import (expand_len_locals, for_loops, sort_calls, hash_order_source, root_of, rpo_index, mutations_of, affine, fmt_affine,
                     len_atom, enclosing_loops)
 from c04 import is_err_term
 
@@ -46,7 +46,7 @@ def run(facts, rep, ctx):
             rep.inconc(R1, "anchor %s missing" % name)
             continue
         taint_rule(facts, rep, R1, b, everything=(name == "serialize"))
-    R6 = rep.rule("R02.6", "every integer serialize writes uses the archive's endianness (no fixed-order conversions)", floor=8)
+    R6 = rep.rule("R02.6", "every integer serialize writes uses the archive's endianness (no fixed-order conversions)", floor=2)
     endian_rule(facts, rep, R6, ser)
     sort_spec_rule(facts, rep, R2, ser)
     phase_rule(facts, rep, R3, R5, ser)
@@ -140,7 +140,9 @@ def taint_rule(facts, rep, R1, b, everything):
                 rep.note("c-string order: %s (outside C02)" % [s["spec"] for s in dom])
                 rep.ok(R1, {"fn": b.name, "seq": "self." + str(fld), "note": "c-strings are outside C02's quantifier"})
                 continue
-            if bad:
+            if bad and any(s["spec"] is None for s in bad):
+                rep.inconc(R1, "the comparator sorting the sequence collected from self.%s is not understood" % fld)
+            elif bad:
                 s = bad[0]
                 rep.violation(R1, b.name, "partial-sort:" + str(fld),
                               "the sequence collected from self.%s is sorted by %s only: entries that tie keep their hash-iteration order, so the image depends on the hash seed" % (fld, spec_str(s["spec"])),
@@ -174,7 +176,7 @@ def sort_spec_rule(facts, rep, R2, ser):
             else:
                 rep.violation(R2, ser.name, "cells-sort", "a per-string cell list is sorted by %s (specified: ascending)" % spec_str(s["spec"]), where)
             continue
-        g = guards(nv, s["bb"], cd)
+        g = dom_guards(nv, s["bb"], cd)
         endian = None
         for (a, succ, c) in g:
             term, vals, neg, dty = c
@@ -217,8 +219,11 @@ def sort_spec_rule(facts, rep, R2, ser):
             rep.ok(R2, {"seq": key, "spec": spec_str(spec)})
         else:
             rep.violation(R2, ser.name, "order:" + key, "self.%s%s is sorted %s; canonical order is %s" % (fld, " (%s-endian)" % endian if endian else "", spec_str(spec), want), where)
+    unknown_sorts = [s for s in sorts if s["spec"] is None]
     for need in ("pointers", "text", "labels:Big", "labels:Little"):
-        if need not in seen:
+        if need not in seen and unknown_sorts:
+            rep.inconc(R2, "no recognised sort for %s (a sort with a comparator that is not understood is present)" % need)
+        elif need not in seen:
             rep.violation(R2, ser.name, "missing-sort:" + need, "no sort found for %s" % need, "%s:%s" % (ser.file, ser.line))
 
 
@@ -312,7 +317,29 @@ def phase_rule(facts, rep, R3, R5, ser):
         if nm == "write_u32":
             v = args[0]
             if enc:
-                seq.append(("loop_u32", root_of(enc[0]["src"]) if enc[0]["src"] else None))
+                src = enc[0]["src"]
+                ch = [x for x in walk(src)] if src else []
+                ch = [x for x in ch if x[0] == "call" and x[1].endswith("Iterator::chain") and len(x[2]) == 2]
+                arr = None
+                r_ = root_of(src) if src else None
+                if r_ and r_[0] == "local" and len(nv.defs().get(r_[1], [])) == 1 and not nv.partial_writes().get(r_[1]):
+                    d_ = nv.definition(r_[1])
+                    if d_[0] == "agg" and d_[1] == "array":
+                        arr = d_[4]
+                if src:
+                    for x in walk(src):
+                        if x[0] == "agg" and x[1] == "array" and arr is None:
+                            arr = x[4]
+                if ch:
+                    # one loop over a.chain(b): the two tables back to back
+                    seq.append(("loop_u32", root_of(ch[0][2][0])))
+                    seq.append(("loop_u32", root_of(ch[0][2][1])))
+                elif arr is not None:
+                    # `for w in [a, b, c, d] { write_u32(w) }`: the words one after the other
+                    for el in arr:
+                        seq.append(("u32", affine(el, nv)))
+                else:
+                    seq.append(("loop_u32", root_of(src) if src else None))
             else:
                 seq.append(("u32", affine(v, nv)))
         elif nm == "seek":
@@ -323,7 +350,15 @@ def phase_rule(facts, rep, R3, R5, ser):
     kinds = [s[0] for s in seq]
     want = ["u32", "u32", "u32", "u32", "seek", "bytes", "bytes", "loop_u32", "loop_u32", "bytes"]
     if kinds != want:
-        rep.violation(R3, ser.name, "image-sequence", "the image is written as %s; canonical: %s" % (kinds, want), where)
+        # the same calls in another order / number is a different image; calls of another kind on the cursor are
+        # a spelling this rule does not know
+        known_kinds = all(nm in ("write_u32", "seek", "write_all", "set_position", "position", "get_ref", "get_mut", "into_inner") for _, bb, nm, args in evs)
+        if known_kinds and sorted(kinds) != sorted(want) and not any(nm == "set_position" for _, bb, nm, args in evs):
+            rep.violation(R3, ser.name, "image-sequence", "the image is written as %s; canonical: %s" % (kinds, want), where)
+        elif known_kinds and sorted(kinds) == sorted(want):
+            rep.violation(R3, ser.name, "image-sequence", "the image is written as %s; canonical: %s" % (kinds, want), where)
+        else:
+            rep.inconc(R3, "image writes not recognised: %s" % kinds)
         return
     # identify sections
     data_sec, pool_sec, ptr_sec, lab_sec, text_sec = seq[5][1], seq[6][1], seq[7][1], seq[8][1], seq[9][1]
@@ -335,6 +370,8 @@ def phase_rule(facts, rep, R3, R5, ser):
         bad = "section buffers have unexpected types"
     # header words
     h = [s[1] for s in seq[:4]]
+
+    h = [expand_len_locals(nv, x) for x in h]
 
     def lens(a):
         if a is None:
@@ -395,7 +432,7 @@ def endian_rule(facts, rep, R6, ser):
                 rep.violation(R6, ser.name, "endian-arg:%s" % fmt(norm(e))[:30], "serialize writes a %s with byte order %s instead of the archive's" % (sh[6:], fmt(e)[:40]), where)
         elif sh in ("to_le_bytes", "to_be_bytes", "to_ne_bytes"):
             rep.violation(R6, ser.name, "raw-bytes:" + sh, "serialize converts an integer with %s: the value's byte order no longer follows the archive's endianness" % sh, where)
-    if n < 8:
+    if n < 2:
         rep.inconc(R6, "only %d endian-aware writes found in serialize" % n)
 
 
@@ -420,6 +457,8 @@ def text_appenders_rule(facts, rep, R4, ser, helper):
             # the 4-byte padding of the c-string pool after its loop is the one accepted direct append
             if sh == "push" and args[1] == ("const", 0, "u8") and not [lp for lp in enclosing_loops(loops, bb) if lp["kind"] == "for"]:
                 continue
+            if sh == "resize" and len(args) == 3 and args[2] == ("const", 0, "u8") and not [lp for lp in enclosing_loops(loops, bb) if lp["kind"] == "for"]:
+                continue       # the same padding in closed form
             rep.violation(R4, ser.name, "direct-append:%s:%s" % (nv.local_name(l), sh),
                           "serialize appends to %s with %s, bypassing the interning helper: a repeated string would be stored twice and earlier offsets overwritten" % (nv.local_name(l), sh),
                           "%s:%s" % (ser.file, t["line"]))
@@ -448,8 +487,12 @@ def intern_rule(facts, rep, R4, ser):
     for p in paths:
         look = None
         for (bb, term, vals, neg, dty) in p.conds:
-            if term[0] == "discr" and term[1][0] == "call" and term[1][1].endswith("HashMap::<K, V, S, A>::get"):
-                look = (term[1], (vals == (1,)) != neg)
+            if term[0] == "discr" and term[1][0] == "call":
+                g = term[1]
+                while g[0] == "call" and g[1].rsplit("::", 1)[-1] in ("copied", "cloned", "as_ref", "as_deref") and g[2]:
+                    g = strip_refs(g[2][0])
+                if g[0] == "call" and g[1].endswith("HashMap::<K, V, S, A>::get"):
+                    look = (g, (vals == (1,)) != neg)
         if look is None:
             if p.end == "ret" and is_err_term(p.ret) is not True:
                 bad = "a path returns without looking the string up"
